@@ -10,12 +10,14 @@ pub mod c08;
 pub mod c09;
 pub mod c10;
 pub mod c11;
+pub mod c13;
 pub mod c15;
 pub mod c16;
 pub mod c17;
 #[cfg(feature = "hash")]
 pub mod c18;
 pub mod apply;
+pub mod ddl;
 pub mod fixture;
 pub mod gen;
 pub mod refsql;
@@ -40,6 +42,7 @@ pub fn lookup(prop: &str) -> Option<CheckFn> {
         "C09" => Some(c09::check),
         "C10" => Some(c10::check),
         "C11" => Some(c11::check),
+        "C13" => Some(c13::check),
         "C15" => Some(c15::check),
         "C16" => Some(c16::check),
         "C17" => Some(c17::check),
